@@ -414,6 +414,8 @@ def run_selftest(prop, rep, rule_fn, config='cmake-release'):
                 results.append({'mutant': m['id'], 'status': 'invalid', 'why': 'mutant does not parse: %s' % str(e)[-300:]})
                 rep.broken.append('self-test mutant %s does not parse' % m['id'])
                 continue
+            from .dataflow import register_identity_functions
+            register_identity_functions(prog)
             sub = Report(prop, rep.tier)
             sub.cur_config = config
             rule_fn(prog, sub)
@@ -432,4 +434,6 @@ def run_selftest(prop, rep, rule_fn, config='cmake-release'):
             for k in [k for k in _prog_cache if k[1] != root]:
                 del _prog_cache[k]
     rep.notes['selftest'] = results
+    from .dataflow import register_identity_functions
+    register_identity_functions(load_program(config, root))
     return results
